@@ -533,6 +533,9 @@ def conclude(prop, tier, seed, meta, m, notes, t0, replay_mode=False):
                 ev["coverage"]["verdict"] = verdict
         with open(os.path.join(OUT, "evidence", prop + ".json"), "w") as f:
             json.dump(ev, f, indent=1, sort_keys=True)
+        # a per-tier copy, so that the last thorough run stays available next to the (registered) latest run
+        with open(os.path.join(OUT, "evidence", f"{prop}.{ev['tier']}.json"), "w") as f:
+            json.dump(ev, f, indent=1, sort_keys=True)
     for ln in out_lines:
         print(ln)
     print(f"[{prop}] tier={tier} seed={seed} verdict={verdict} evaluations={evals} distinct_nontrivial={nd} "
